@@ -16,6 +16,13 @@ def step (line : String) : String :=
   | "c19n" :: a => Drv.C19.opN a
   | "c14c" :: a => Drv.C14.opCreate a
   | "c14e" :: a => Drv.C14.opEmbed a
+  | "c01n" :: a => Drv.C01.opNewton a
+  | "c01m" :: a => Drv.C01.opMethods a
+  | "c01g" :: a => Drv.C01.opGetRefined a
+  | "c01f" :: a => Drv.C01.opFill a
+  | "c01p" :: a => Drv.C01.opPipeline a
+  | "c04f" :: a => Drv.C01.opFollow a
+  | "c04a" :: a => Drv.C01.opAssemble a
   | "c05hy" :: a => Drv.C05.opHy a
   | "c05pd" :: a => Drv.C05.opPD a
   | "c06tz" :: a => Drv.C05.opTZ a
